@@ -71,9 +71,38 @@ def run(res):
     n = 120 if res.tier == "quick" else 1200
     progs = [gen_program(rng, allow_dups=(k % 4 == 0)) for k in range(n)]
     progs.append([{"argspec": [["v", 1]], "kwspec": []}, {"same_as": 1, "argspec": [["v", 1]], "kwspec": []}])      # D15 witness
+    # the same function called with a future and with a plain integer in the same slot (an integer that
+    # happens to equal the producer's number): two different calls, two boxes
+    for k in range(12 if res.tier == "quick" else 60):
+        base = gen_program(rng, allow_dups=False)
+        cand = [(i, a) for i, c in enumerate(base, 1) for a, sp in enumerate(c["argspec"]) if sp[0] == "f"]
+        if not cand:
+            base = [{"argspec": [["v", 1]], "kwspec": []}, {"argspec": [["v", 1], ["f", 1]], "kwspec": []}]
+            cand = [(2, 1)]
+        i, a = rng.choice(cand)
+        j = base[i - 1]["argspec"][a][1]
+        twin = {"same_as": base[i - 1].get("same_as", i), "argspec": [list(x) for x in base[i - 1]["argspec"]], "kwspec": base[i - 1]["kwspec"]}
+        twin["argspec"][a] = ["v", rng.choice([j - 1, j])]
+        progs.append(base + [twin])
     cases = [{"mode": "exec", "kwargs": {"plot_dependency_graph": True}, "calls": p,
               "ops": [["submit", i + 1] for i in range(len(p))] + [["exit"]], "schedule": lockstep.gen_schedule(rng, 400),
               "step_limit": 600} for p in progs]
+    # two plot-mode executors one after the other in one interpreter: the second graph shows the second program only
+    two = []
+    for k in range(6 if res.tier == "quick" else 40):
+        p1, p2 = gen_program(rng, allow_dups=False), gen_program(rng, allow_dups=False)
+
+        def shift(sp, off):
+            if sp[0] == "f":
+                return ["f", sp[1] + off]
+            if sp[0] == "l":
+                return ["l", [shift(x, off) for x in sp[1]]]
+            return sp
+        p2s = [{"argspec": [shift(x, len(p1)) for x in c["argspec"]], "kwspec": [[kk, shift(v, len(p1))] for kk, v in c["kwspec"]]} for c in p2]
+        two.append({"mode": "exec", "kwargs": {"plot_dependency_graph": True}, "calls": p1 + p2s,
+                    "sessions": [{"ops": [["submit", i + 1] for i in range(len(p1))] + [["exit"]]},
+                                 {"ops": [["submit", len(p1) + i + 1] for i in range(len(p2s))] + [["exit"]]}],
+                    "schedule": lockstep.gen_schedule(rng, 600), "step_limit": 800, "_n2": len(p2s), "_n1": len(p1)})
     with core.Lock():
         gate = core.grep_gate()
         status = core.regen()
@@ -133,6 +162,21 @@ def run(res):
                 hits += 1
             else:
                 fails.append({"program": p, "why": why})
+    two_fail = None
+    for c, r in zip(two, lockstep.run_cases(two)):
+        gs = r.get("graphs") or []
+        if len(gs) != 2:
+            if r.get("verdict") in ("done", "quiescent", "deadlock"):
+                two_fail = {"program": c["calls"], "why": "two plot-mode executors in one process drew %d graphs" % len(gs)}
+            continue
+        nb = [sum(1 for nid, lab, sh in g["nodes"] if sh == "box") for g in gs]
+        if nb != [c["_n1"], c["_n2"]]:
+            two_fail = {"program": c["calls"], "sessions": [s2["ops"] for s2 in c["sessions"]],
+                        "why": "two plot-mode executors one after the other: the graphs have %r boxes, the programs %r calls "
+                               "(the second executor must draw its own calls only)" % (nb, [c["_n1"], c["_n2"]])}
+    if two_fail:
+        fails.append(two_fail)
+    res.cov["two_executor_cases"] = len(two)
     res.cov.update({"evaluations": len(progs), "distinct_nontrivial": len({json.dumps(p) for p in progs}),
                     "traces_validated_against_impl": 0 if outs is None else len(progs), "model_mismatches": len(mism),
                     "oracle_failures": len(fails), "known_finding_hits": {"D15": hits},
